@@ -3,6 +3,7 @@ CONSTANTS
   Rich = 0
   MaxEdits = 1
   MaxFails = 1
+  Single = FALSE
 INIT IInit
 NEXT INext
 INVARIANTS TypeOK AcceptedStep AcceptedEnd AcceptedDestroy AcceptedDeletionsEnd
